@@ -231,7 +231,13 @@ class Interp:
     def op_write(self, op):
         self.desc = op[1]
         with open(self.file, 'w') as f:
-            json.dump(self.desc, f)
+            text = json.dumps(self.desc)
+            if self.cfg.get('escaped'):
+                # the same description in another spelling: every '$' as
+                # the JSON escape \u0024 (and non-ASCII escaped anyway)
+                text = text.replace('$', '\\u0024')
+                self.probes['world_file_with_escaped_dollars'] += 1
+            f.write(text)
         if getattr(self, 'loaded_once', False):
             self.probes['reload_after_rewrite'] += 1
             self.flags.add('rewritten')
@@ -604,6 +610,7 @@ def generate(prop, run_seed, tier='quick', tolerate=frozenset()):
            'resources': resources, 'standalone': standalone,
            'split_char': crng.choice([None] * 6 + [':', '|']),
            'preload': [r for r in resources if crng.random() < .4],
+           'escaped': crng.random() < .08,
            'res_text': ({r: crng.choice([
                '${verif_fixtures.OBJ}', '${os.sep}', '${verif_fixtures.NUM}',
                '$handle{a}', '${player.name} joined', '$res{b}'])
